@@ -10,6 +10,17 @@ pub(crate) fn stub_write(_o: &mut dyn core::fmt::Write, _a: core::fmt::Arguments
 /// harnesses that must carry a Uri-Path (std's word-at-a-time scan is not
 /// affordable for CBMC). Accepts exactly well-formed UTF-8.
 pub(crate) fn model_from_utf8(v: &[u8]) -> Result<&str, core::str::Utf8Error> {
+    model_from_utf8_impl(v, true)
+}
+
+/// The same validator for harnesses whose strings are valid by construction (enumerated paths): the
+/// rejecting branch is asserted unreachable instead of building a `Utf8Error` (which needs a call into the
+/// real validator and made two queries run out of memory).
+pub(crate) fn model_from_utf8_valid_inputs(v: &[u8]) -> Result<&str, core::str::Utf8Error> {
+    model_from_utf8_impl(v, false)
+}
+
+fn model_from_utf8_impl(v: &[u8], may_reject: bool) -> Result<&str, core::str::Utf8Error> {
     let mut i = 0;
     let n = v.len();
     let mut ok = true;
@@ -59,6 +70,8 @@ pub(crate) fn model_from_utf8(v: &[u8]) -> Result<&str, core::str::Utf8Error> {
     }
     if ok {
         Ok(unsafe { core::str::from_utf8_unchecked(v) })
+    } else if !may_reject {
+        panic!("verif model: this harness only passes valid UTF-8");
     } else {
         // obtain a genuine Utf8Error value through a tiny concrete call of the real validator
         // (from_utf8_mut, because from_utf8 itself is what this model replaces)
